@@ -49,6 +49,8 @@ def _parse_val(s):
             return []
         if re.fullmatch(r"[-\d, ]+", inner):
             return [int(x) for x in inner.split(",")]
+        if re.fullmatch(r'("\w*"|TRUE|FALSE)(, ("\w*"|TRUE|FALSE))*', inner):
+            return [x.strip().strip('"') if x.strip()[0] == '"' else x.strip() == "TRUE" for x in inner.split(",")]
     if s.startswith('"') and s.endswith('"'):
         return s[1:-1]
     return s
@@ -71,14 +73,17 @@ class Graph:
         self.adj = collections.defaultdict(list)   # id -> [(label, arg, target id, edge index)]
         self.nedges = 0
         node_re = re.compile(r'^(-?\d+) \[label="(.*)"(,style = filled)?\]\s*;?$')
-        edge_re = re.compile(r'^(-?\d+) -> (-?\d+) \[label="(\w+)(?:\((-?\d+)\))?"')
+        edge_re = re.compile(r'^(-?\d+) -> (-?\d+) \[label="(\w+)(?:\(([-\d, ]+)\))?"')
         with open(path) as f:
             for line in f:
                 line = line.rstrip("\n")
                 m = edge_re.match(line)
                 if m:
                     u, v, lab, arg = m.groups()
-                    self.adj[u].append((lab, int(arg) if arg is not None else None, v, self.nedges))
+                    if arg is not None:      # one integer argument -> int, several -> tuple
+                        arg = tuple(int(x) for x in arg.split(","))
+                        arg = arg[0] if len(arg) == 1 else arg
+                    self.adj[u].append((lab, arg, v, self.nedges))
                     self.nedges += 1
                     continue
                 m = node_re.match(line)
